@@ -32,8 +32,13 @@ def clause_id(oid):
 
 
 def discharge(o, tier):
-  r = smt.prove(o.assumptions, o.goal, axioms_only=getattr(o, 'axioms_only', None))
-  if r.status == 'unknown':
+  if z3.is_false(o.goal):
+    # the clause evaluated to a literal False on this path: only infeasibility of the path could still discharge it, and the executor
+    # has already found the path feasible when it forked -- one short attempt, no retry
+    r = smt.prove(o.assumptions, o.goal, axioms_only=getattr(o, 'axioms_only', None), timeout_ms=8000)
+  else:
+    r = smt.prove(o.assumptions, o.goal, axioms_only=getattr(o, 'axioms_only', None))
+  if r.status == 'unknown' and not z3.is_false(o.goal):
     # one retry with a three times larger budget before the obligation counts as not discharged (robustness under load)
     r2 = smt.prove(o.assumptions, o.goal, axioms_only=getattr(o, 'axioms_only', None), timeout_ms=3 * smt.Z3_TIMEOUT_MS)
     r2.seconds += r.seconds
